@@ -15,36 +15,36 @@ const (
 	TypePeople = "people"
 	TypeTeams  = "teams"
 
-	FName   = "name"
-	FNick   = "nick"
+	FName = "name"
+	FNick = "nick"
 	// the stored keys of nick and boss differ from the names of their symbols (AddSymbolWithKey / AddFkSymbolWithKey): field
 	// checkers and raw corruption talk about keys, queries and indexes about symbols
-	KNick = "nickname"
-	KBoss = "bossId"
-	FRoles  = "roles"
-	FBoss   = "boss"
-	FTeam   = "team"
-	FRep    = "reports" // back-reference set of boss on people
-	FTRep   = "tmembers" // back-reference set of team on teams
-	FTeams  = "teams"   // link set people -> teams
-	FMemb   = "members" // link set teams -> people
-	FSvc    = "svc"     // ref counted people -> teams
-	FUsers  = "users"   // ref counted teams -> people
+	KNick       = "nickname"
+	KBoss       = "bossId"
+	FRoles      = "roles"
+	FBoss       = "boss"
+	FTeam       = "team"
+	FRep        = "reports"    // back-reference set of boss on people
+	FTRep       = "tmembers"   // back-reference set of team on teams
+	FTeams      = "teams"      // link set people -> teams
+	FMemb       = "members"    // link set teams -> people
+	FSvc        = "svc"        // ref counted people -> teams
+	FUsers      = "users"      // ref counted teams -> people
 	FChief      = "chief"      // fk teams -> staff (child store)
 	FChiefOf    = "chiefOf"    // its back-reference set, on staff
 	FSquads     = "squads"     // link set staff -> teams
 	FSquadStaff = "squadStaff" // link set teams -> staff
-	FLead   = "lead"
-	FGrade  = "grade"
-	ExtPath = "ext"
+	FLead       = "lead"
+	FGrade      = "grade"
+	ExtPath     = "ext"
 )
 
 // Config mirrors the CONSTANTS of Store.tla that change how the stores are wired.
 type Config struct {
-	BossMode      string `json:"bossMode"` // off | idxNull | conNoneNull | conCascadeNull
-	TeamMode      string `json:"teamMode"` // off | idx | idxNull | idxCascade | conNone | conNoneNull | conCascade | conCascadeNull
-	ChildExtended bool   `json:"childExtended"`
-	LinksViaEntity bool  `json:"linksViaEntity"` // people.teams also persisted through PersistEntity/SetLinkedIds
+	BossMode       string `json:"bossMode"` // off | idxNull | conNoneNull | conCascadeNull
+	TeamMode       string `json:"teamMode"` // off | idx | idxNull | idxCascade | conNone | conNoneNull | conCascade | conCascadeNull
+	ChildExtended  bool   `json:"childExtended"`
+	LinksViaEntity bool   `json:"linksViaEntity"` // people.teams also persisted through PersistEntity/SetLinkedIds
 	// constraints and link sets registered on the child store: teams.chief -> staff (nullable fk index, back-references in
 	// staff.chiefOf) and the link collection staff.squads <-> teams.squadStaff
 	ChildFeatures bool `json:"childFeatures"`
@@ -163,11 +163,11 @@ type StaffStore struct {
 
 type TeamStore struct {
 	*boltz.BaseStore[*Team]
-	SymMembers boltz.EntitySetSymbol
-	SymUsers   boltz.EntitySetSymbol
-	SymTRep    boltz.EntitySetSymbol
-	Links      boltz.LinkCollection
-	Rc         boltz.RefCountedLinkCollection
+	SymMembers    boltz.EntitySetSymbol
+	SymUsers      boltz.EntitySetSymbol
+	SymTRep       boltz.EntitySetSymbol
+	Links         boltz.LinkCollection
+	Rc            boltz.RefCountedLinkCollection
 	SymSquadStaff boltz.EntitySetSymbol
 	Squads        boltz.LinkCollection // teams.squadStaff <-> staff.squads (ChildFeatures)
 }
@@ -185,18 +185,24 @@ type Stores struct {
 	Staff  *StaffStore
 	// Interns is a second child store of People that stays empty (see New)
 	Interns *StaffStore
-	Teams   *TeamStore
+	// Alumni is a third, equally empty child store registered after Staff
+	Alumni *StaffStore
+	Teams  *TeamStore
 	// OnSetChange, when non-nil, receives set-index listener invocations
 	OnSetChange func(SetChange)
 }
 
 func New(cfg Config) *Stores {
 	s := &Stores{Cfg: cfg}
+	// one base path value for both top-level stores, with room to grow: a store that derives longer paths from it (index buckets,
+	// child stores) has to copy it first
+	base := make([]string, 1, 8)
+	base[0] = "stores"
 
 	people := &PeopleStore{BaseStore: boltz.NewBaseStore(boltz.StoreDefinition[*Person]{
 		EntityType:     TypePeople,
 		EntityStrategy: personStrategy{cfg: &s.Cfg},
-		BasePath:       []string{"stores"},
+		BasePath:       base,
 		EntityNotFoundF: func(id string) error {
 			return boltz.NewNotFoundError(TypePeople, "id", id)
 		},
@@ -207,7 +213,7 @@ func New(cfg Config) *Stores {
 	teams := &TeamStore{BaseStore: boltz.NewBaseStore(boltz.StoreDefinition[*Team]{
 		EntityType:     TypeTeams,
 		EntityStrategy: teamStrategy{cfg: &s.Cfg},
-		BasePath:       []string{"stores"},
+		BasePath:       base,
 		EntityNotFoundF: func(id string) error {
 			return boltz.NewNotFoundError(TypeTeams, "id", id)
 		},
@@ -235,38 +241,42 @@ func New(cfg Config) *Stores {
 	}
 	s.Staff = staff
 
-	// a second child store of people that never holds an entity, registered *before* staff: whatever walks the child stores of
-	// an entity (update hand-over, delete, events) has to get past a child store the entity does not belong to
-	interns := &StaffStore{BaseStore: boltz.NewBaseStore(boltz.StoreDefinition[*Staff]{
-		EntityStrategy: &staffStrategy{people: people},
-		BasePath:       []string{"intern"},
-		Parent:         people,
-		ParentMapper: func(e boltz.Entity) boltz.Entity {
-			if st, ok := e.(*Staff); ok {
-				return &st.Person
-			}
-			return e
-		},
-		EntityNotFoundF: func(id string) error {
-			return boltz.NewNotFoundError(people.GetSingularEntityType(), "id", id)
-		},
-	})}
-	interns.InitImpl(interns)
-	s.Interns = interns
-	people.RegisterChildStoreStrategy(&boltz.ChildStoreUpdateHandler[*Person, *Staff]{
-		Store: interns,
-		Mapper: func(ctx boltz.MutateContext, parent *Person) (*Staff, bool) {
-			if !interns.IsEntityPresent(ctx.Tx(), parent.Id) {
-				return nil, false
-			}
-			st, found, _ := interns.BaseStore.FindById(ctx.Tx(), parent.Id)
-			if !found || st == nil {
-				return nil, false
-			}
-			st.Person = *parent
-			return st, true
-		},
-	})
+	// child stores of people that never hold an entity, one registered *before* staff and one after it: whatever walks the
+	// child stores of an entity (update hand-over, delete, events) has to get past child stores the entity does not belong to,
+	// and every registration stays in effect
+	emptyChild := func(path string) *StaffStore {
+		c := &StaffStore{BaseStore: boltz.NewBaseStore(boltz.StoreDefinition[*Staff]{
+			EntityStrategy: &staffStrategy{people: people},
+			BasePath:       []string{path},
+			Parent:         people,
+			ParentMapper: func(e boltz.Entity) boltz.Entity {
+				if st, ok := e.(*Staff); ok {
+					return &st.Person
+				}
+				return e
+			},
+			EntityNotFoundF: func(id string) error {
+				return boltz.NewNotFoundError(people.GetSingularEntityType(), "id", id)
+			},
+		})}
+		c.InitImpl(c)
+		people.RegisterChildStoreStrategy(&boltz.ChildStoreUpdateHandler[*Person, *Staff]{
+			Store: c,
+			Mapper: func(ctx boltz.MutateContext, parent *Person) (*Staff, bool) {
+				if !c.IsEntityPresent(ctx.Tx(), parent.Id) {
+					return nil, false
+				}
+				st, found, _ := c.BaseStore.FindById(ctx.Tx(), parent.Id)
+				if !found || st == nil {
+					return nil, false
+				}
+				st.Person = *parent
+				return st, true
+			},
+		})
+		return c
+	}
+	s.Interns = emptyChild("intern")
 
 	people.RegisterChildStoreStrategy(&boltz.ChildStoreUpdateHandler[*Person, *Staff]{
 		Store: staff,
@@ -283,6 +293,8 @@ func New(cfg Config) *Stores {
 			return st, true
 		},
 	})
+
+	s.Alumni = emptyChild("alumni")
 
 	// ---- people: local symbols and constraints, in the registration order Store.tla mirrors
 	people.AddExtEntitySymbols()
@@ -359,7 +371,8 @@ func New(cfg Config) *Stores {
 
 	// ---- staff
 	people.GrantSymbols(staff)
-	people.GrantSymbols(interns)
+	people.GrantSymbols(s.Interns)
+	people.GrantSymbols(s.Alumni)
 	if cfg.SysOnChild {
 		staff.AddConstraint(boltz.NewSystemEntityEnforcementConstraint(staff)) // the constraint guards what the child store handles, nothing else
 	}
